@@ -26,7 +26,7 @@ ASSUMPTIONS = ["extra keys in an entity are tolerated; the named keys must match
 
 NAMES = ["mood", "Mood", '"Dq"', "`Bt`", "[Br]", "ARRAY_T", "my_ARRAY", "identity_t", "schema", "key", "type", "database", "index", "comment", "domain"]
 KWNAMES = NAMES[8:]  # entity names that coincide with grammar keywords (not used as a column TYPE: the statement does not cover that)
-SCH = [None, "s1", '"S2"']
+SCH = [None, "s1", '"S2"', "identity"]  # (identity: a schema named like a type-modifier keyword)
 
 
 def q(s, n):
@@ -99,6 +99,11 @@ def decls():
             for tmp in (False, True):
                 st = "CREATE " + (ty + " " if ty else "") + ("TEMPORARY " if tmp else "") + "TABLESPACE %s;" % n
                 out.append({"kind": "tablespace", "ddl": st, "exp": {"tablespace_name": n, "type": ty, "temporary": tmp}})
+                if n in NAMES[:2] and (ty or tmp):
+                    # the same statement with its keywords in lower case
+                    out.append({"kind": "tablespace", "ddl": st.replace("CREATE", "create").replace("BIGFILE", "bigfile").replace("SMALLFILE", "smallfile")
+                                .replace("TEMPORARY", "temporary").replace("TABLESPACE", "tablespace"),
+                                "exp": {"tablespace_name": n, "temporary": tmp}, "exp_type_ci": ty})
     return out
 
 
@@ -135,7 +140,8 @@ def gen_cases(tier):
     for i, d in enumerate(D()):
         cases.append({"d": i, "ctx": "alone"})
         cases.append({"d": i, "ctx": "before-table"})
-        cases.append({"d": i, "ctx": "before-table-nosemi"})  # neither statement carries a ';': the table's CREATE ends the declaration
+        cases.append({"d": i, "ctx": "before-table-nosemi"})
+        cases.append({"d": i, "ctx": "before-table-mixed"})  # the declaration has no ';', the one-line table after it has one  # neither statement carries a ';': the table's CREATE ends the declaration
         cases.append({"d": i, "ctx": "after-table"})
         cases.append({"d": i, "ctx": "pair"})
         # directly after a one-line SET statement (as the last statement, and followed by another one-line declaration)
@@ -188,6 +194,8 @@ def build(case):
         return SETLINE + "\n" + d["ddl"] + "\n" + "CREATE DATABASE zz_db;"
     if case["ctx"] == "before-table-nosemi":
         return d["ddl"].rstrip(";") + "\n" + OTHER.rstrip(";")
+    if case["ctx"] == "before-table-mixed":
+        return d["ddl"].rstrip(";") + "\n" + OTHER
     if case["ctx"] == "before-table":
         return d["ddl"] + "\n" + OTHER
     if case["ctx"] == "after-table":
@@ -284,6 +292,10 @@ def evaluate(case):
         if set(bad) <= {"domain_name", "schema"} and d["kind"] == "domain":
             sym = "domain-name-wrong"
         diffs.append(diff(d["kind"] + " entity", sym, {k: v[0] for k, v in bad.items()}, {k: v[1] for k, v in bad.items()}))
+    if d.get("exp_type_ci") is not None or "exp_type_ci" in d:
+        got_ty = e.get("type")
+        if (got_ty or "").upper() != (d["exp_type_ci"] or "").upper() or (got_ty is None) != (d["exp_type_ci"] is None):
+            diffs.append(diff("tablespace entity", "entity-differs", {"type": d["exp_type_ci"]}, {"type": got_ty}))
     if d.get("tbody"):
         ref = run_ddl("CREATE TABLE zz_ref (%s);" % d["tbody"])
         want = [[c.get(k) for k in ("name", "type", "size", "nullable", "default", "unique")] for c in ref[1][0]["columns"]] if ref[0] == "ok" and ref[1] else None
@@ -299,7 +311,7 @@ def evaluate(case):
             diffs.append(diff("SET statement before the declaration", "neighbour-changed", {"name": "search_path", "value": "public"}, short(res[0], 200)))
         if case["ctx"] == "after-set-run" and res[2] != {"database_name": "zz_db"}:
             diffs.append(diff("declaration after the declaration", "neighbour-changed", {"database_name": "zz_db"}, short(res[2], 200)))
-    if case["ctx"] in ("before-table", "after-table", "before-table-nosemi"):
+    if case["ctx"] in ("before-table", "after-table", "before-table-nosemi", "before-table-mixed"):
         t = res[1 - idx]
         ref = run_ddl(OTHER)[1][0]
         if t != ref:
